@@ -430,6 +430,52 @@ fn error_paths(report: &Report) {
     report.family(FamilyStat { name, cases: total, nontrivial: total - parse_errs.load(Ordering::Relaxed), skipped: parse_errs.load(Ordering::Relaxed), note: "strings \"a\"*s + c*N for 2/3/4-byte c and every shift s (a byte cut at any offset splits a character in one of them); errors are expected, panics and non-UTF-8 are not".into() });
 }
 
+
+/// Every filter on strings in which a *trigger character* (one that string filters search for or
+/// treat specially) is followed, at every byte shift, by 2-, 3- and 4-byte characters: a byte
+/// offset computed from the trigger (a look-ahead of k bytes, a fixed-width slice, a length
+/// compared in bytes) lands inside a character for some shift.
+fn awkward_strings(report: &Report) {
+    let parser = cfgs::parser(Config::Full);
+    let triggers = ["&", "<", ">", "%", "+", "'", "\"", " ", "\n", ",", "/", "-", ".", ":", "&#", "&a", "</", "%2", "1", "{"];
+    let mut strings: Vec<String> = Vec::new();
+    for t in triggers {
+        for c in ['é', '語', '👍'] {
+            for s in 0..4 {
+                strings.push(format!("{t}{}{}{t}{}", "a".repeat(s), c.to_string().repeat(5), c));
+            }
+        }
+    }
+    let filters = filter_names(&parser);
+    let mut templates: Vec<String> = Vec::new();
+    for (f, _) in &filters {
+        templates.push(format!("{{{{ w | {f} }}}}"));
+        templates.push(format!("{{{{ w | {f}: w }}}}"));
+        templates.push(format!("{{{{ w | {f}: 3 }}}}"));
+        templates.push(format!("{{{{ w | {f}: w, w }}}}"));
+        templates.push(format!("{{{{ w | {f}: 2, w }}}}"));
+        templates.push(format!("{{{{ w | {f}: -4, 3 }}}}"));
+    }
+    let datas: Vec<V> = strings.iter().map(|w| V::obj(&[("w", V::s(w))])).collect();
+    let globals: Vec<liquid::Object> = datas.iter().map(|d| d.to_object()).collect();
+    let total = (templates.len() * datas.len()) as u64;
+    let name = format!("awkward strings: {} filter calls x {} strings (trigger + shift + multi-byte run)", templates.len(), datas.len());
+    let nontriv = AtomicU64::new(0);
+    let parse_errs = AtomicU64::new(0);
+    par_range(
+        report,
+        &name,
+        total,
+        |i| {
+            let (ti, di) = ((i / datas.len() as u64) as usize, (i % datas.len() as u64) as usize);
+            total_render(report, "awkward-strings", i, &parser, &templates[ti], &datas[di], &globals[di], &nontriv, &parse_errs);
+        },
+        |i| json!({"kind":"render","template":templates[(i / datas.len() as u64) as usize],"data":datas[(i % datas.len() as u64) as usize].to_json(),"partials":[]}),
+    );
+    report.nontrivial.fetch_add(nontriv.load(Ordering::Relaxed), Ordering::Relaxed);
+    report.family(FamilyStat { name, cases: total, nontrivial: nontriv.load(Ordering::Relaxed), skipped: parse_errs.load(Ordering::Relaxed), note: format!("triggers {:?} x shifts 0..3 x {{é, 語, 👍}}; every registered filter at arity 0..2", triggers) });
+}
+
 /// Generated well-formed programs rendered on type-confused data.
 fn confused_programs(report: &Report, thorough: bool) {
     use crate::props::c08;
@@ -475,5 +521,6 @@ pub fn run(tier: Tier) -> i32 {
     constructs(&report, full);
     confused_programs(&report, full);
     error_paths(&report);
+    awkward_strings(&report);
     report.finish()
 }
